@@ -113,7 +113,9 @@ func evalHSOpt(args []string) string {
 			ccfg.Certificates = []gmtls.Certificate{clientCert}
 		}
 	case opt == "gcfc-error":
-		scfg.GetConfigForClient = func(*gmtls.ClientHelloInfo) (*gmtls.Config, error) { return nil, errors.New("no configuration for you") }
+		scfg.GetConfigForClient = func(*gmtls.ClientHelloInfo) (*gmtls.Config, error) {
+			return nil, errors.New("no configuration for you")
+		}
 	case strings.HasPrefix(opt, "alpn:"):
 		f := strings.Split(opt, ":")
 		if len(f) != 3 {
